@@ -441,6 +441,7 @@ Proof.
   - apply GN_release; auto.
   - unfold do_enabled. simpl. eapply GN_same_slots; eauto; repeat split.
   - unfold do_fevent. destruct (eff st t false); exact G.
+  - unfold do_eventq. destruct (eff st t false); exact G.
 Qed.
 
 Lemma GN_init : forall layers g, GN (init layers g).
@@ -596,6 +597,7 @@ Proof.
     + simpl. apply NS_cons; [exact I | apply NS_nil].
   - unfold do_enabled. apply NS_nil.
   - unfold do_fevent. destruct (eff st t false); [apply NS_cons; [exact I | apply NS_nil] | apply NS_nil].
+  - unfold do_eventq. destruct (eff st t false); [apply NS_cons; [exact I | apply NS_cons; [exact I | apply NS_nil]] | apply NS_nil].
 Qed.
 
 Theorem no_stale_note : forall layers g h x, In x (trace (init layers g) h) -> ns x.
